@@ -1,14 +1,19 @@
-"""C17 - layered HTTP connections compose adapters without side effects (bounded complement; proof tier pending)."""
-from checks._bounded import run_bounded_check
+"""C17 - layered HTTP connections compose adapters without side effects (per-operation proof + bounded sequences)."""
+from checks._proof import run_proof_check
+
+PROP = 'C17'
 
 
 def run():
-    return run_bounded_check(
-        'C17', 'harness.c17',
-        "472 fixed cases (request-argument grid through a 3-layer chain, every clone argument kind) then seeded sequences of "
-        "<= 6 operations {wrap with prefix/basic/bearer/client auth, add_adapter, clone(None/one/list/tuple), get_conn, request} "
-        "on a shared root with a stub opener; every pre-existing connection and caller is probed again after every operation; "
-        "non-trivial = >= 2 layers and >= 2 requests",
-        ["at most one authenticating adapter per chain and no caller-supplied Authorization header",
-         "paths and prefixes start with '/' and do not end with '/'",
-         "adapters added to an ancestor after a derivation: nothing demanded"])
+    return run_proof_check(
+        PROP, ['contracts.c17_http'], ['ak.conn_http', 'ak.mcaller_http'], level='proof', harness='harness.c17',
+        bounded_rule="472 fixed cases (request-argument grid through a 3-layer chain, every clone argument kind) then seeded "
+                     "sequences of <= 6 operations {wrap with prefix/basic/bearer/client auth, add_adapter, clone(None/one/list/"
+                     "tuple), get_conn, request} on a shared root with a stub opener; every pre-existing connection and caller "
+                     "is probed again after every operation; non-trivial = >= 2 layers and >= 2 requests",
+        checker_note="+ AST pattern obligations for the five verb methods and the response loop",
+        extra_assumptions=["at most one authenticating adapter per chain and no caller-supplied Authorization header "
+                           "(the adapters assert this)",
+                           "get_conn (inspect-based metadata lookup) is covered by the bounded driver only",
+                           "the all-histories claim follows from the per-operation frames by induction over operations "
+                           "(meta-argument, not mechanised)"])
